@@ -26,7 +26,11 @@ def single_codepoints(full):
     return [chr(c) for c in sorted(pts)]
 
 
-HEXISH = list("0123456789abcdefABCDEF") + ["g", "G", "%", "é", "\ud800", " "]
+# characters that a narrowing conversion, a table lookup or a Unicode-aware predicate could
+# mistake for an ASCII hex digit or for '%': same low byte (U+0141 'A', U+0430 '0', U+0466 'f',
+# U+0125 '%'), same low 16 bits (U+10041), full-width and other Unicode digits/letters
+ALIASES = ["\u0141", "\u0430", "\u0466", "\u0125", "\U00010041", "\uff21", "\uff11", "\u0661", "\u00b2"]
+HEXISH = list("0123456789abcdefABCDEF") + ["g", "G", "%", "é", "\ud800", " "] + ALIASES
 CTX_L = ["", "a", "%", "%2"]
 CTX_R = ["", "a", "%", "F"]
 
@@ -39,9 +43,23 @@ def escapes_in_context():
                     yield l + "%" + x + y + r
 
 
+def alias_escapes():
+    """'%' followed by two characters of which at least one only looks like a hex digit"""
+    a = ALIASES + ["4", "a", "F"]
+    return ["%" + x + y for x in a for y in a if not (x.isascii() and y.isascii())]
+
+
+def escape_position_sweep(points):
+    """every given code point in each of the two positions after a '%'"""
+    out = []
+    for c in points:
+        out += ["%" + c + "1", "%4" + c, "x%" + c + c + "y"]
+    return out
+
+
 UNQ_TOKENS = ["%41", "%2F", "%2f", "%25", "%2B", "%26", "%3D", "%3B", "%20", "%C3", "%A9", "%c3%a9", "%E2", "%82",
               "%AC", "%F0", "%9F", "%98", "%80", "%ED", "%A0", "%E0", "%C0", "%F4", "%90", "%F5", "%FF",
-              "%", "%4", "%zz", "+", "a", "/", "é", " ", "&", "=", ";", "%e2%82%ac",
+              "%", "%4", "%zz", "+", "a", "/", "é", " ", "&", "=", ";", "%e2%82%ac", "%\u0430\u0141", "%4\u0466",
               # boundary sequences of every UTF-8 length class (first/last valid, first invalid)
               "%C2%80", "%DF%BF", "%E0%A0%80", "%ED%9F%BF", "%EE%80%80", "%EF%BF%BF", "%F0%90%80%80", "%F3%BF%BF%BF",
               "%F4%80%80%80", "%F4%8F%BF%BF", "%f4%8f%bf%bf", "%F4%90%80%80", "%ED%A0%80", "%E0%9F%BF", "%F0%8F%BF%BF", "%C1%BF"]
@@ -55,7 +73,7 @@ def unq_strings(maxlen, tokens=None):
 
 
 def random_mixed(rng, n, maxlen=40):
-    pool = SQ_ALPHABET + list("abcXYZ019-._~!$'()*,:@?#[]=;\"<>\\^`{|}\t\n\x00\x7f") + ["%41", "%2f", "%C3%A9", "%e2%82%ac", "%zz", "\U0010ffff", "\udfff"]
+    pool = SQ_ALPHABET + list("abcXYZ019-._~!$'()*,:@?#[]=;\"<>\\^`{|}\t\n\x00\x7f") + ["%41", "%2f", "%C3%A9", "%e2%82%ac", "%zz", "\U0010ffff", "\udfff"] + ALIASES
     out = []
     for _ in range(n):
         ln = rng.randint(0, maxlen)
